@@ -460,10 +460,12 @@ pub fn check_c10(cfg: &Config, res: &CaseResult, acc: &mut Acc) {
         return;
     }
     let Outcome::Ok(bytes) = &res.outcome else { return };
-    let a = analyze(bytes, false);
+    let mut a = analyze(bytes, false);
     if a.lex_err.is_some() {
-        acc.count("undecodable_outputs_not_judged_here", 1);
-        return;
+        // a stream that desynchronises later is C04's business; the opcodes that do decode are
+        // still scanned here
+        acc.count("outputs_with_a_lex_error_scanned_up_to_it", 1);
+        a.ins = crate::lexer::lex_lenient(bytes);
     }
     let mut ext = 0;
     let mut buf = 0;
